@@ -33,7 +33,7 @@ MANIFEST = {
     'engines': ['E-ENUM'],
     'technique': 'bounded-exhaustive enumeration of rule sets (<=3 rules from a prefix-sharing universe) in every insertion '
                  'order x generated paths on the real RadiRouter / Ombott.__call__, compared with an independent matcher',
-    'text': 'Every 1-, 2- and 3-rule subset of the rule universe (3-sets over the 20-rule core in the quick tier, over the '
+    'text': 'Every 1-, 2- and 3-rule subset of the rule universe (plain, int, float, re, path and rex selector filters; 3-sets over the 26-rule core in the quick tier, over the '
             'whole universe in the thorough tier) is registered in every insertion order; every generated path is resolved '
             'and the selected handler and parameter dict are compared with the reference; all syntax flavours must agree.',
     'note': 'Bounds: <=3 rules per router, universe of ~55 ASTs, paths from the stated generators. Trusted: CPython re, '
